@@ -16,7 +16,9 @@ FUNCTIONS = ['uxarray.grid.grid.Grid.face_areas',
     'uxarray.grid.neighbors.KDTree.coordinates.setter@value=face centers',
     'uxarray.grid.neighbors.KDTree.coordinates.setter@value=edge centers',
     'uxarray.grid.neighbors.KDTree.coordinates.setter@value=bogus',
-    'uxarray.grid.grid.Grid.compute_face_areas']
+    'uxarray.grid.grid.Grid.compute_face_areas',
+    'uxarray.grid.grid.Grid.to_geodataframe',
+    'uxarray.grid.connectivity._populate_edge_node_connectivity']
 STANDINS = ["histories"]
 ASSUMPTIONS = []
 EXPLANATION = ""
